@@ -23,9 +23,10 @@ type secOp struct {
 }
 
 type secSpec struct {
-	k      int
-	global [][]int
-	ops    []secOp
+	k       int
+	global  [][]int
+	ops     []secOp
+	convErr bool // every operation declares the same default error response (convenient errors become active)
 }
 
 func (s secSpec) doc() string {
@@ -47,6 +48,9 @@ func (s secSpec) doc() string {
 	paths := map[string]any{}
 	for _, op := range s.ops {
 		o := map[string]any{"operationId": op.name, "responses": map[string]any{"200": map[string]any{"description": "ok"}}}
+		if s.convErr {
+			o["responses"].(map[string]any)["default"] = map[string]any{"description": "error", "content": map[string]any{"application/json": map[string]any{"schema": map[string]any{"$ref": "#/components/schemas/Error"}}}}
+		}
 		if op.none {
 			o["security"] = []any{}
 		} else if op.reqs != nil {
@@ -56,6 +60,9 @@ func (s secSpec) doc() string {
 	}
 	doc := map[string]any{"openapi": "3.0.3", "info": map[string]any{"title": "t", "version": "1"}, "paths": paths,
 		"components": map[string]any{"securitySchemes": schemes}}
+	if s.convErr {
+		doc["components"].(map[string]any)["schemas"] = map[string]any{"Error": map[string]any{"type": "object", "required": []any{"code"}, "properties": map[string]any{"code": map[string]any{"type": "integer"}, "message": map[string]any{"type": "string"}}}}
+	}
 	if s.global != nil {
 		doc["security"] = mkReq(s.global)
 	}
@@ -215,6 +222,21 @@ func c09(r *lp.Run) {
 			s.ops = append(s.ops, op)
 		}
 		specs = append(specs, s)
+	}
+	// the same structures with a shared default error response: convenient errors route the security failure
+	// through NewError + encodeErrorResponse, a different code path of the handler template
+	{
+		ce := secSpec{k: 2, convErr: true}
+		for i, reqs := range allReqs(2) {
+			ce.ops = append(ce.ops, secOp{name: fmt.Sprintf("ce%d", i), reqs: reqs})
+		}
+		specs = append(specs, ce)
+		cw := wide
+		cw.convErr = true
+		specs = append(specs, cw)
+		cg := secSpec{k: 9, global: genReqs(rng, 9), convErr: true}
+		cg.ops = append(cg.ops, secOp{name: "g0"}, secOp{name: "g1", none: true}, secOp{name: "g2", reqs: genReqs(rng, 9)})
+		specs = append(specs, cg)
 	}
 	type built struct {
 		spec secSpec
@@ -403,6 +425,9 @@ func c09Op(r *lp.Run, rng *lp.Rand, drv *gc.Driver, spec secSpec, pkg *gc.Pkg, o
 		status := fmt.Sprint(ans["status"])
 		srv, _ := ans["server"].(map[string]any)
 		handler := srv != nil && fmt.Sprint(srv["handler_called"]) != "0"
+		if wh := fmt.Sprint(ans["write_headers"]); wh != "1" && ans["panic"] == nil {
+			r.Fail(lp.PropFail{Property: "C09", What: "not exactly one response is written", Input: map[string]any{"operation": op.name, "requirement": reqStr(eff), "outcomes": vec, "convenient_errors": spec.convErr}, Observed: "WriteHeader calls: " + wh + ", status " + status + fmt.Sprint(", handler invoked: ", handler), Expected: "1"})
+		}
 		out := "401"
 		if handler {
 			out = "handler"
